@@ -23,10 +23,10 @@ def minify_lib(src, config, keep_file=None):
     from pico8.lua import lua
     L = lua.Lua.from_lines([src], version=8)
     args = {}
-    if config == 'keep_all':
-        args = {'keep_all_names': True}
-    elif config == 'keep_file':
-        args = {'keep_names_from_file': keep_file}
+    if config.startswith('keep_all'):
+        args['keep_all_names'] = True
+    if 'keep_file' in config:
+        args['keep_names_from_file'] = keep_file
     out = b''.join(L.to_lines(writer_cls=lua.LuaMinifyTokenWriter, writer_args=args))
     return L, out
 
